@@ -107,6 +107,14 @@ def run_integral(mods, ref, field, limit, use_volfrac, via, ctx, canary=False):
             elif via == 'argument':
                 pck = PlotfileCooker('plt', ghost=True)
                 got = pestle.volume_integral(pck, field, limit_level=limit, use_volfrac=use_volfrac)
+            elif via == 'history':
+                # one retained reader object: an integral restricted to level 0 first, then the judged one
+                pck = PlotfileCooker('plt', ghost=True)
+                try:
+                    pestle.volume_integral(pck, field, limit_level=0, use_volfrac=not use_volfrac)
+                except Exception:
+                    pass
+                got = pestle.volume_integral(pck, field, limit_level=limit, use_volfrac=use_volfrac)
             else:
                 argv = ['pestle', '--variable', field, 'plt']
                 if limit is not None:
@@ -156,8 +164,10 @@ def run_case(case):
     for field in [ref.fields[0]]:
         for limit in [None] + list(range(ref.nlev)):
             for vf in ((False, True) if 'volFrac' in ref.fields else (False,)):
-                for via in ('reader', 'argument', 'cli'):
+                for via in ('reader', 'argument', 'cli', 'history'):
                     if limit is None and via == 'argument':
+                        continue
+                    if via == 'history' and (ref.nlev < 2 or limit == 0):
                         continue
                     runs.append((field, limit, vf, via))
     for field, limit, vf, via in runs:
@@ -211,6 +221,12 @@ def make_replay(ref, v):
         run = ("from amr_kitchen import PlotfileCooker\nfrom amr_kitchen.pestle.pestle import volume_integral\nimport contextlib, io\n"
                "with contextlib.redirect_stdout(io.StringIO()), contextlib.redirect_stderr(io.StringIO()):\n"
                "    RESULT = volume_integral(PlotfileCooker(os.path.join(IN, 'plt'), limit_level=%r, ghost=True), %r, use_volfrac=%r)\n" % (limit, field, vf))
+    elif via == 'history':
+        run = ("from amr_kitchen import PlotfileCooker\nfrom amr_kitchen.pestle.pestle import volume_integral\nimport contextlib, io\n"
+               "with contextlib.redirect_stdout(io.StringIO()), contextlib.redirect_stderr(io.StringIO()):\n"
+               "    pck = PlotfileCooker(os.path.join(IN, 'plt'), ghost=True)\n"
+               "    try:\n        volume_integral(pck, %r, limit_level=0, use_volfrac=%r)\n    except Exception:\n        pass\n"
+               "    RESULT = volume_integral(pck, %r, limit_level=%r, use_volfrac=%r)\n" % (field, not vf, field, limit, vf))
     elif via == 'argument':
         run = ("from amr_kitchen import PlotfileCooker\nfrom amr_kitchen.pestle.pestle import volume_integral\nimport contextlib, io\n"
                "with contextlib.redirect_stdout(io.StringIO()), contextlib.redirect_stderr(io.StringIO()):\n"
